@@ -227,3 +227,92 @@ func HarnessC09Reader() {
 		svReach("parsed")
 	}
 }
+
+// Whole field values: the complete value of one header field (message level or
+// part level) is replaced by k fully symbolic bytes - every value of that
+// length, which for short k reaches the degenerate members of each field's
+// grammar (empty group "a:;", lone "<", "=?", ";=", unterminated quote ...).
+const hxEML4 = "Date: Wed, 01 Nov 2023 00:00:00 +0000\r\n" +
+	"MIME-Version: 1.0\r\n" +
+	"Message-ID: <1305604950.683004066175@go-mail.dev>\r\n" +
+	"Subject: values\r\n" +
+	"From: <go-mail@go-mail.dev>\r\n" +
+	"To: <to@go-mail.dev>\r\n" +
+	"Cc: <cc@go-mail.dev>\r\n" +
+	"Bcc: <bcc@go-mail.dev>\r\n" +
+	"Reply-To: <rt@go-mail.dev>\r\n" +
+	"X-Priority: 1\r\n" +
+	"Content-Type: multipart/mixed; boundary=BB\r\n" +
+	"\r\n" +
+	"--BB\r\n" +
+	"Content-Transfer-Encoding: quoted-printable\r\n" +
+	"Content-Type: text/plain; charset=UTF-8\r\n" +
+	"Content-Description: d\r\n" +
+	"\r\n" +
+	"body\r\n" +
+	"--BB\r\n" +
+	"Content-Disposition: attachment; filename=\"t.txt\"\r\n" +
+	"Content-Id: <t.txt>\r\n" +
+	"Content-Transfer-Encoding: base64\r\n" +
+	"Content-Type: text/plain; name=\"t.txt\"\r\n" +
+	"\r\n" +
+	"VGhp\r\n" +
+	"--BB--\r\n"
+
+// anchors of the fields whose value is replaced (first occurrence)
+var hxEMLValueFields = []string{
+	"From: ", "To: ", "Cc: ", "Bcc: ", "Date: ", "Subject: ", "Message-ID: ", "MIME-Version: ",
+	"Content-Type: multipart", "\r\nContent-Transfer-Encoding: quoted", "\r\nContent-Type: text/plain; charset",
+	"Content-Disposition: ", "Content-Id: ", "\r\nContent-Transfer-Encoding: base64", "\r\nContent-Type: text/plain; name",
+	"Reply-To: ", "Content-Description: ",
+}
+
+func HarnessC09Values() {
+	f := svPick("field", len(hxEMLValueFields))
+	k := svParam("k", 3)
+	if f < svParam("deepfields", 0) {
+		k++ // the address-list grammar (From, To) gets one more symbolic byte
+	}
+	if svParam("lens", 0) == 1 {
+		k = svPick("value-length", k+1)
+	}
+	tpl := hxEML4
+	anchor := hxEMLValueFields[f]
+	at := hxIndexStr(tpl, anchor)
+	if at < 0 {
+		svAssert(false, "setup-field-not-found")
+		return
+	}
+	// the value starts after the first ": " of the anchor and ends at the CRLF
+	vs := at + hxIndexStr(anchor, ": ") + 2
+	ve := vs + hxIndexStr(tpl[vs:], "\r\n")
+	sym := svBytes("v", k)
+	// optional fixed lead-in that puts the symbolic bytes inside a syntactic context
+	ctx := svPick("context", svParam("ctxs", 1))
+	pre, post := "", ""
+	switch ctx {
+	case 1:
+		pre, post = "\"n\" <", ">"
+	case 2:
+		pre, post = "a/b; x=\"", "\""
+	case 3:
+		pre, post = "=?UTF-8?q?", "?="
+	}
+	data := append(append(append(append([]byte(tpl[:vs]), pre...), sym...), post...), tpl[ve:]...)
+	func() {
+		defer func() {
+			if r := recover(); r != nil {
+				if hxIsStop(r) {
+					panic(r)
+				}
+				svAssert(false, "C09 panic: "+hxPanicLabel(r))
+			}
+		}()
+		_, err := EMLToMsgFromString(string(data))
+		if err != nil {
+			svReach("parse-error")
+		} else {
+			svReach("parsed")
+		}
+	}()
+}
